@@ -5,6 +5,7 @@ import Gv.Proofs.StatsUnique
 import Gv.Proofs.StatsDiff
 import Gv.Proofs.StatsMut
 import Gv.Proofs.StatsMutAA
+import Gv.Proofs.StatsMutAAEq
 import Gv.Proofs.StatsProfile
 import Gv.Proofs.StatsUniqueProf
 /-!
@@ -556,6 +557,34 @@ theorem aaEntry_reports_a_difference (code : List (List Byte × Byte)) (refaa : 
      (e.2.2 = [47] ∧ (ungap q).length % 3 ≠ 0) ∨
      (e.2.2 = codonsFrom code (ungap q) ∧ ungap q ≠ [] ∧ (ungap q).length % 3 = 0 ∧ e.2.2 ≠ [refaa])) :=
   Proofs.StatsMutAA.aaEntry_mem code refaa allgaps pos q e he
+
+/-- **completeness - the model is the naive definition on every input**: the list written by the loop of the Go code
+(walk over the reference with its skips of one or two gaps, its triples of reference gaps, the counter `aaidx`) is the
+list of `Spec.aaMutations`: for every reference codon `k` (the residues `3k, 3k+1, 3k+2` of the reference, whatever gaps
+lie between them) first the triples of gap columns that follow codon `k − 1` in which the query shows something, then
+codon `k` itself when the query does not show its amino acid alone - nothing else, nothing missing, in this order.
+(`Proofs.StatsMutAAEq.main`: induction over the walk; the translation is `Spec.translateCodon ncbi1` by C05.) -/
+theorem listMutationsVsRefAA_eq_spec (alphabet : Nat) (s ref : Seq) :
+    listMutationsVsRefAA alphabet s ref = Spec.aaMutations alphabet s ref := by
+  unfold listMutationsVsRefAA Spec.aaMutations
+  rw [standard_code_defined]
+  by_cases hl : s.length = ref.length
+  · by_cases ha : alphabet = 1
+    · subst ha
+      have hn : ((1 : Nat) != NUCLEOTIDS) = false := rfl
+      have hl' : (s.length != ref.length) = false := by simpa using hl
+      simp only [hn, Bool.false_eq_true, if_false, hl, ne_eq, not_true_eq_false]
+      have hl'' : (ref.length != ref.length) = false := by simp
+      simp only [hl'', Bool.false_eq_true, if_false]
+      have hm := Proofs.StatsMutAAEq.main s ref ref.length 0 0 (by simp) (by omega)
+        (by simpa using Proofs.StatsMutAAEq.resCols_eq ref) (by simp)
+      simp only [List.drop_zero, Int.natCast_zero, Nat.sub_zero] at hm
+      rw [hm, List.range_eq_range']
+    · have : (alphabet != NUCLEOTIDS) = true := by
+        simp only [bne_iff_ne, ne_eq]; exact ha
+      simp [hl, this, ha]
+  · have : (s.length != ref.length) = true := by simpa using hl
+    simp [this, hl]
 
 /-- an unchanged alignment lists nothing for a reference codon: the same residues in the window translate to the
 reference amino acid -/
